@@ -331,8 +331,8 @@ class CFG:
                 todo.append(p)
         return seen
 
-    def find_path(self, srcs, targets, avoid_nodes=(), kinds=None, avoid_edge_kinds=None) -> list:
-        """One witness path (list of nodes) or []."""
+    def find_path(self, srcs, targets, avoid_nodes=(), kinds=None, avoid_edge_kinds=None, edge_ok=None) -> list:
+        """One witness path (list of nodes) or [].  ``edge_ok(n, m, kinds)`` may veto an edge."""
         avoid_nodes = set(avoid_nodes)
         targets = set(targets)
         avoid_edge_kinds = avoid_edge_kinds or {}
@@ -361,6 +361,8 @@ class CFG:
                     continue
                 if cut is not None and not (ek - cut):
                     continue
+                if edge_ok is not None and not edge_ok(n, m, ek):
+                    continue
                 prev[m] = n
                 todo.append(m)
         return []
@@ -377,7 +379,7 @@ class CFG:
                 out.append(d["kind"])
         return out
 
-    def count_marked(self, src: int, stops: set, marked: set, kinds=None) -> tuple:
+    def count_marked(self, src: int, stops: set, marked: set, kinds=None, dead=()) -> tuple:
         """(min, max) number of ``marked`` nodes on any path from ``src`` to a node
         in ``stops`` (stops are not expanded).  The explored region must be acyclic."""
         memo: dict = {}
@@ -385,6 +387,9 @@ class CFG:
 
         def go(n):
             if n in memo:
+                return memo[n]
+            if n in dead:
+                memo[n] = (None, None)
                 return memo[n]
             if n in onstack:
                 raise AnalysisError("cycle inside a region assumed acyclic")
